@@ -215,15 +215,6 @@ def bucket_add_obligations(ctx: Any, R: str) -> List[Ob]:
     return [ob(R, b, 'self.out.add_question(question); for answer in answers: self.out.add_answer_at_time(answer, self.now_millis); self.bytes += size', 'a bucket takes the question, each of its known answers at the bucket\'s time, and the size estimate -- on every path', lv is not None and seqs == want, f'effects {sorted(map(str, seqs))[:2]}')]
 
 
-def _browser_qu_local(g: FuncInfo) -> str:
-    """The local of the browser's query builder that says `ask QU`: assigned from a conditional on the question-type parameter."""
-    qt = g.params[4]
-    c = find_locals(g, lambda v: isinstance(v, ast.IfExp) and any(isinstance(x, ast.Name) and x.id == qt for x in ast.walk(v)))
-    if len(c) != 1:
-        raise AnalysisError(f'anchor vanished: QU decision local in {g.where()}')
-    return c[0]
-
-
 def lookup_history_obligations(ctx: Any, R: str, eff: Any) -> List[Ob]:
     """Decision table of the lookup's question builder over (QU?, history suppresses?): a QU question is always asked and the
     history is neither consulted nor written for it."""
@@ -329,15 +320,18 @@ def history(ctx: Any) -> List[Ob]:
     lp = [n for n in cfg.nodes if n.kind == 'for']
     if len(lp) != 1:
         raise AnalysisError('anchor vanished: type loop in generate_service_query')
-    quv = _browser_qu_local(g)
+    # the QU decision is a function of the forced question type and of the multicast flag (C13.QUFIRST decides which): the
+    # table is taken over those two parameters, so it does not matter whether a local names the decision
+    p_mc_h, p_qt_h = g.params[3], g.params[4]
     for qu in (True, False):
-        for sup in (True, False):
-            atoms = {quv: qu, '.suppresses()': sup}
-            oc, und = fd.run_paths(prog, g.module, cfg, atoms, eff, start=lp[0], stop=lambda n: n is lp[0], loop_bound=1, for_iter=lambda n, e: True)
-            got = {tuple(x for x in strip_ret(t)) for t in oc}
-            want = ('ASK',) if qu else (('CONSULT',) if sup else ('CONSULT', 'ASK', 'RECORD'))
-            got_n = {tuple(sorted(t)) for t in got}
-            obs.append(ob(R, g, f'browser: QU={qu} history suppresses={sup}', f'effects {sorted(want)}', got_n == {tuple(sorted(want))}, f'got {sorted(got)} undecided {und}'))
+        for qt_h, mc_h in (((QU, True), (QU, False), (None, False)) if qu else ((QM, True), (QM, False), (None, True))):
+            for sup in (True, False):
+                atoms = {p_qt_h: qt_h, p_mc_h: mc_h, '.suppresses()': sup}
+                oc, und = traces(ctx, g, atoms, eff, loop_bound=1, for_iter=lambda n, e: True)
+                got = {tuple(x for x in strip_ret(t)) for t in oc}
+                want = ('ASK',) if qu else (('CONSULT',) if sup else ('CONSULT', 'ASK', 'RECORD'))
+                got_n = {tuple(sorted(t)) for t in got}
+                obs.append(ob(R, g, f'browser: forced type={qt_h} multicast={mc_h} (QU={qu}) history suppresses={sup}', f'effects {sorted(want)}', got_n == {tuple(sorted(want))}, f'got {sorted(got)} undecided {und}'))
     # what the history is consulted with, and what is recorded, is the set this instance would list itself (non-stale records)
     for bf in (f, g):
         for c in walk_local_ordered(bf.node):
@@ -536,15 +530,17 @@ def qufirst(ctx: Any) -> List[Ob]:
     def qu_of(qt: Any, mc: bool) -> Any:
         res = set()
 
-        quv = _browser_qu_local(g)
-
         def eff(node: Any, evl: Any) -> List[Any]:
-            if node.kind == 'stmt' and isinstance(node.ast, ast.Assign) and isinstance(node.ast.targets[0], ast.Name) and node.ast.targets[0].id == quv:
-                v = evl.ev(node.ast.value)
-                return [('QU', v if not isinstance(v, fd._Unknown) else 'UNKNOWN')]
-            return []
+            # the decision as it reaches the question: the value stored into its QU bit
+            out = []
+            if node.kind == 'stmt':
+                for t_, st_ in attr_stores(node.ast):
+                    if t_.attr in ('unicast', 'unique') and isinstance(st_, ast.Assign):
+                        v = evl.ev(st_.value)
+                        out.append(('QU', v if not isinstance(v, fd._Unknown) else 'UNKNOWN'))
+            return out
 
-        oc, _ = traces(ctx, g, {p_qt: qt, p_mc: mc}, eff, loop_bound=1, for_iter=lambda n, e: False)
+        oc, _ = traces(ctx, g, {p_qt: qt, p_mc: mc}, eff, loop_bound=1, for_iter=lambda n, e: True)
         for t in oc:
             for x in t:
                 if isinstance(x, tuple) and x[0] == 'QU':
@@ -563,7 +559,6 @@ def qufirst(ctx: Any) -> List[Ob]:
                     obs.append(ob(R, g, f'browser builder: type={qt} multicast={mc}', f'questions are {"QU" if want else "QM"}', qus == {want}, f'got {qus}'))
     # ... and that decision reaches the wire: each question the builder makes gets its QU bit from the decision, before the
     # question is used for anything (history, the table of questions to send)
-    quv_b = _browser_qu_local(g)
     gcfg = cfg_of(g.node)
     gloops = [n for n in gcfg.nodes if n.kind == 'for' and not n.in_loop]
     if len(gloops) != 1:
@@ -584,8 +579,8 @@ def qufirst(ctx: Any) -> List[Ob]:
 
     oc_qb, _ = fd.run_paths(prog, g.module, gcfg, {}, eff_qb, start=gloops[0], stop=lambda n: n is gloops[0], loop_bound=1, for_iter=lambda n, e: True if n is gloops[0] else None)
     seq_qb = {tuple(x for x in strip_ret(t) if x == 'USE' or isinstance(x, tuple) and x[0] == 'QUBIT') for t in oc_qb}
-    ok_qb = bool(seq_qb) and all(sq and sq[0] == ('QUBIT', quv_b) and sum(1 for x in sq if isinstance(x, tuple)) == 1 for sq in seq_qb)
-    obs.append(ob(R, g, f'question.unicast = {quv_b}', 'every question of the browser query carries the QU bit that was decided, set before the question is used', ok_qb, f'per type: {sorted(map(str, seq_qb))[:3]}'))
+    ok_qb = bool(seq_qb) and all(sq and isinstance(sq[0], tuple) and sq[0][0] == 'QUBIT' and sum(1 for x in sq if isinstance(x, tuple)) == 1 for sq in seq_qb)
+    obs.append(ob(R, g, 'question.unicast = <the decision>', 'every question of the browser query carries the QU bit that was decided, set before the question is used', ok_qb, f'per type: {sorted(map(str, seq_qb))[:3]}'))
     # the QU bit of a question is the `unique` flag the class writer reads (C01.FLUSHBIT): the `unicast` property of a question
     # stores into it and reads from it
     qcls = prog.cls('zeroconf._dns.DNSQuestion')
@@ -622,19 +617,27 @@ def qufirst(ctx: Any) -> List[Ob]:
         roles = request_roles(ctx)
     except NoNextQueryTime:
         return obs + no_next_obligation(ctx, R)
-    asg = [n for n in cfg.nodes if n.kind == 'stmt' and isinstance(n.ast, ast.Assign) and isinstance(n.ast.targets[0], ast.Name) and n.ast.targets[0].id == roles['qtype']]
-    if len(asg) != 1:
-        raise AnalysisError('anchor vanished: question type of the round in async_request')
+    from .c18 import round_type_value
+
+    rt_expr = round_type_value(ctx, roles)
     for forced in (None, QU, QM):
         for is_first in (True, False):
             ev = fd.Evaluator(prog, rq.module, {p_qt: forced, roles['first']: is_first})
-            v = ev.ev(asg[0].ast.value)
+            v = ev.ev(rt_expr)
             want = (forced if forced is not None else QU) if is_first else QM
             obs.append(ob(R, rq, f'lookup: forced={forced} first={is_first}', f'question type is {want}', v == want, f'got {v}'))
     gq = prog.func('zeroconf._services.info.ServiceInfo._generate_request_query')
-    qv = {norm(c.args[1]) for c in walk_local_ordered(gq.node) if isinstance(c, ast.Call) and call_name(c) == '_add_question_with_known_answers' and len(c.args) > 1}
-    asg2 = [st for st in walk_local_ordered(gq.node) if isinstance(st, ast.Assign) and isinstance(st.targets[0], ast.Name) and len(qv) == 1 and st.targets[0].id in qv]
-    ok2 = len(asg2) == 1 and isinstance(asg2[0].value, ast.Compare) and isinstance(asg2[0].value.ops[0], ast.Is) and norm(asg2[0].value.left) == gq.params[3] and fd.Evaluator(prog, gq.module, {}).ev(asg2[0].value.comparators[0]) == QU
+    from .common import expand as _xp
+
+    # the flag handed to the question adder, read through whatever locals name it: a function of the question type alone, true
+    # exactly for QU
+    qes = [_xp(gq, c.args[1]) for c in walk_local_ordered(gq.node) if isinstance(c, ast.Call) and call_name(c) == '_add_question_with_known_answers' and len(c.args) > 1]
+    ok2 = bool(qes) and len({norm(e) for e in qes}) == 1
+    if ok2:
+        for qt_v, want_v in ((QU, True), (QM, False), (None, False)):
+            v2 = fd.Evaluator(prog, gq.module, {gq.params[3]: qt_v}).ev(qes[0])
+            ok2 = ok2 and (not isinstance(v2, fd._Unknown)) and v2 is want_v
+    asg2 = qes
     obs.append(ob(R, gq, asg2[0] if asg2 else 'qu_question', 'the lookup asks QU exactly when its question type is QU', ok2))
     # first_request is cleared after the first query
     fr = [n for n in cfg.nodes if n.kind == 'stmt' and isinstance(n.ast, ast.Assign) and isinstance(n.ast.targets[0], ast.Name) and n.ast.targets[0].id == roles['first'] and norm(n.ast.value) == 'False']
@@ -701,17 +704,25 @@ def const(ctx: Any) -> List[Ob]:
     if raise_:
         # ... as a table over (type of the round, delay in force): raised iff the round was QM and the delay is below the
         # interval; afterwards the delay is at least the interval in every QM case and untouched in every QU case
-        QMs, QUs = fd.Evaluator(prog, rq.module, {}).ev(ast.Name(id='QM_QUESTION', ctx=ast.Load())), fd.Evaluator(prog, rq.module, {}).ev(ast.Name(id='QU_QUESTION', ctx=ast.Load()))
+        QMs = fd.Evaluator(prog, rq.module, {}).ev(ast.Name(id='QM_QUESTION', ctx=ast.Load()))
         k_iv = prog.const('zeroconf.const', '_DUPLICATE_QUESTION_INTERVAL')
-        for qt_name, qt_v in (('QM', QMs), ('QU', QUs)):
-            for d0 in (200, k_iv - 1, k_iv, k_iv + 1, 5000):
-                ev_r = fd.Evaluator(prog, rq.module, {roles['qtype']: qt_v, roles['delay']: d0})
-                tv_r = ev_r.ev(raise_[0].test)
-                want_d = max(d0, k_iv) if qt_name == 'QM' else d0
-                got_d = None if tv_r is fd.UNKNOWN else (k_iv if tv_r else d0)
-                obs.append(ob(R, rq, f'{qt_name} round, delay in force {d0} ms', f'the delay afterwards is {want_d} ms', got_d == want_d, f'the test evaluates to {tv_r}: delay {got_d}'))
-        compared = [norm(x.left) for x in ast.walk(raise_[0].test) if isinstance(x, ast.Compare) and any('QM_QUESTION' in norm(c_) for c_ in x.comparators)] + [norm(c_) for x in ast.walk(raise_[0].test) if isinstance(x, ast.Compare) and 'QM_QUESTION' in norm(x.left) for c_ in x.comparators]
-        obs.append(ob(R, rq, raise_[0].test, 'the question type tested there is the one of the query just built in this round (not the caller\'s forced type, which is usually None)', compared == [roles['qtype']], f'tests `{compared}`; the type of this round is `{roles["qtype"]}`'))
+        from .c18 import round_type_value
+
+        rt_expr = round_type_value(ctx, roles)
+        p_qt_r = rq.params[3]
+        # the type tested is the type of the query just built in this round (not the caller's forced type, which is usually None):
+        # the round's type is computed from (forced type, first?) and the test is evaluated with it
+        for forced in (None, QU, QM):
+            for is_first in (True, False):
+                base = {p_qt_r: forced, roles['first']: is_first}
+                round_v = fd.Evaluator(prog, rq.module, base).ev(rt_expr)
+                is_qm = round_v == QMs
+                for d0 in (200, k_iv - 1, k_iv, k_iv + 1, 5000):
+                    atoms_r = {roles['qtype']: round_v, roles['delay']: d0} if roles['qtype'] else dict(base, **{roles['delay']: d0})
+                    tv_r = fd.Evaluator(prog, rq.module, atoms_r).ev(raise_[0].test)
+                    want_d = max(d0, k_iv) if is_qm else d0
+                    got_d = None if tv_r is fd.UNKNOWN or round_v is fd.UNKNOWN else (k_iv if tv_r else d0)
+                    obs.append(ob(R, rq, f'round of type {round_v} (forced={forced} first={is_first}), delay in force {d0} ms', f'the delay afterwards is {want_d} ms', got_d == want_d, f'the test evaluates to {tv_r}: delay {got_d}'))
     init_d = prog.func('zeroconf._services.info.ServiceInfo._get_initial_delay')
     obs.append(ob(R, init_d, 'return _LISTENER_TIME', 'the second query follows after 200 ms plus jitter', prog.const('zeroconf.const', '_LISTENER_TIME') == 200 and any(isinstance(r, ast.Return) and norm(r.value) == '_LISTENER_TIME' for r in walk_local_ordered(init_d.node))))
     gq = prog.func('zeroconf._services.info.ServiceInfo._generate_request_query')
